@@ -26,17 +26,9 @@ def _floyd_warshall_rust(
     rust = get_rust_module()
 
     # For undirected graphs, expand to bidirectional edges
+    # (every edge in both directions; the Rust side keeps the minimum weight per pair)
     if not directed:
-        edge_set: set[tuple[int, int]] = set()
-        expanded: list[tuple[int, int, float]] = []
-        for u, v, w in edges:
-            if (u, v) not in edge_set:
-                expanded.append((u, v, w))
-                edge_set.add((u, v))
-            if (v, u) not in edge_set:
-                expanded.append((v, u, w))
-                edge_set.add((v, u))
-        edges = expanded
+        edges = [*edges, *((v, u, w) for u, v, w in edges)]
 
     result = rust.floyd_warshall(n_nodes, edges)
 
